@@ -483,3 +483,111 @@ def covered(path, cover_set):
         if path.startswith(c) and path[len(c):len(c) + 1] in (".", "[", "{"):
             return True
     return False
+
+
+# {{{ flow-sensitive "raw" (unmapped) provenance of copy() values
+
+def raw_copy_values(P, K: Class, include_lhs=True):
+    """For every ``.copy(field=value)`` in the map_expressions chain of K:
+    the self-rooted paths that reach *value* WITHOUT passing through the
+    mapper, assuming ``include_lhs`` has the given truth value.  Branches on
+    anything else are merged.  Assignments are strong updates.
+
+    Returns {field: (paths, func, node)}.
+    """
+    out = {}
+    for f in _chain(P, K, "map_expressions"):
+        mp = f.params[1]
+        state = {}
+
+        def env_of(st):
+            e = df.Env({"self": ""})
+            for k, v in st.items():
+                e.vars[k] = frozenset(v)
+            return e
+
+        def rawprov(expr, st, env=None):
+            env = env or env_of(st)
+            acc = set()
+
+            def visit(n, env):
+                if isinstance(n, ast.Call) and isinstance(n.func, ast.Name) and n.func.id == mp:
+                    return
+                if isinstance(n, ast.IfExp) and _is_flag(n.test, "include_lhs") is not None:
+                    truth = _is_flag(n.test, "include_lhs") == include_lhs
+                    visit(n.body if truth else n.orelse, env)
+                    return
+                if isinstance(n, (ast.GeneratorExp, ast.ListComp, ast.SetComp, ast.DictComp)):
+                    sub = env.child()
+                    for g in n.generators:
+                        visit_iter = g.iter
+                        df.bind_target(g.target, df.iter_elem(df.prov(g.iter, sub)), sub)
+                    elts = [n.key, n.value] if isinstance(n, ast.DictComp) else [n.elt]
+                    for e in elts:
+                        visit(e, sub)
+                    return
+                if isinstance(n, (ast.Attribute, ast.Subscript, ast.Name)):
+                    p = df.flat(df.prov(n, env))
+                    if p:
+                        acc.update(p)
+                        return
+                    if isinstance(n, ast.Name):
+                        return
+                for c in ast.iter_child_nodes(n):
+                    if isinstance(c, (ast.expr, ast.keyword, ast.comprehension)):
+                        visit(c if not isinstance(c, ast.keyword) else c.value, env)
+
+            visit(expr, env)
+            return {p for p in acc if p != ""}
+
+        def run_block(stmts, st):
+            for s in stmts:
+                if isinstance(s, ast.Assign):
+                    val = rawprov(s.value, st)
+                    for t in s.targets:
+                        if isinstance(t, ast.Name):
+                            st[t.id] = set(val)
+                        elif isinstance(t, (ast.Tuple, ast.List)):
+                            for e in t.elts:
+                                if isinstance(e, ast.Name):
+                                    st[e.id] = set(val)
+                elif isinstance(s, ast.If):
+                    flag = _is_flag(s.test, "include_lhs")
+                    if flag is not None:
+                        branch = s.body if flag == include_lhs else s.orelse
+                        run_block(branch, st)
+                    else:
+                        a, b = dict((k, set(v)) for k, v in st.items()), \
+                            dict((k, set(v)) for k, v in st.items())
+                        run_block(s.body, a)
+                        run_block(s.orelse, b)
+                        for k in set(a) | set(b):
+                            st[k] = a.get(k, set()) | b.get(k, set())
+                elif isinstance(s, (ast.For, ast.While)):
+                    run_block(s.body, st)
+                elif isinstance(s, ast.Return) and s.value is not None:
+                    for n in ast.walk(s.value):
+                        if isinstance(n, ast.Call) and isinstance(n.func, ast.Attribute) \
+                                and n.func.attr == "copy" and n.keywords:
+                            for kw in n.keywords:
+                                if kw.arg:
+                                    paths = expand(P, K, rawprov(kw.value, st))
+                                    old = out.get(kw.arg)
+                                    if old:
+                                        paths |= old[0]
+                                    out[kw.arg] = (paths, f, kw.value)
+
+        run_block(f.node.body, state)
+    return out
+
+
+def _is_flag(test, name):
+    """True if test is `name`, False if `not name`, else None."""
+    if isinstance(test, ast.Name) and test.id == name:
+        return True
+    if isinstance(test, ast.UnaryOp) and isinstance(test.op, ast.Not) \
+            and isinstance(test.operand, ast.Name) and test.operand.id == name:
+        return False
+    return None
+
+# }}}
